@@ -9,7 +9,7 @@ REPO_DIR="${VERIF_REPO:-/repo}"
 export PYTHONPATH="$REPO_DIR:$HERE${PYTHONPATH:+:$PYTHONPATH}"
 export PYTHONHASHSEED=0 OMP_NUM_THREADS=1 MKL_NUM_THREADS=1
 export WANDB_MODE=offline WANDB_SILENT=true PIP_NO_INDEX=1 PYTHONDONTWRITEBYTECODE=1
-export TQDM_DISABLE=1 SLEAP_NN_VERIF=1 VERIF_TIER="$TIER"
+export SLEAP_NN_VERIF=1 VERIF_TIER="$TIER"
 PY="${VERIF_PYTHON:-/venv/bin/python}"
 mod="checks.$(echo "$ID" | tr 'A-Z' 'a-z')"
 cd "$HERE"
